@@ -580,3 +580,145 @@ func init() {
 		}
 	})
 }
+
+func init() {
+	// the entries of an ordered dict the helper iterates are swapped: an edit of what the function references
+	engScenarios = append(engScenarios, func(r *engRun) {
+		s := r.mkSource("")
+		a := r.mkTarget("", nil, []int{s}, 1, false, 0)
+		a.Helper = true // the body calls helper() at run time: the helper and the dict it iterates are in a's environment
+		top := r.mkTarget("", []int{a.ID}, nil, 1, false, 3)
+		top.Helper = true
+		r.emitProj("scenario: reordering the entries of a dict the function reads in order")
+		r.build(top.ID, "build", nil, "", "scenario")
+		for i := 0; i < 2; i++ {
+			r.p.HelperOrder++
+			r.emitProj("helper: entries of an ordered dict swapped")
+			o := r.build(top.ID, "build", nil, "", "after the swap")
+			if o.Kind == "build" && o.OK {
+				r.checkClean(top.ID)
+			}
+		}
+	})
+	// a kill between the write and the rename of a target's FINAL record (longer than the mark on disk), then builds of
+	// another target (whose loads refresh the first one's shorter record) and further loads: the state stays loadable
+	engScenarios = append(engScenarios, func(r *engRun) {
+		s := r.mkSource("")
+		t := r.mkTarget("", nil, []int{s}, 1, false, 1)
+		u := r.mkTarget("", nil, []int{s}, 1, false, 0)
+		r.emitProj("scenario: a kill between write and rename of a final record, then other builds")
+		for _, point := range []string{"save.written", "save.closed"} {
+			obs := r.build(t.ID, "build", nil, point+"|"+r.p.label(t.ID)+"|2", "killed while the final record was being put in place")
+			if obs.Kind == "crash" || obs.Kind == "crash-load" {
+				r.loadAfterCrash(point)
+			}
+			r.build(u.ID, "build", nil, "", "another target")
+			r.loadAfterCrash(point + " (after building another target)")
+			o := r.build(t.ID, "build", nil, "", "recovery")
+			if o.Kind == "build" && o.OK {
+				r.checkClean(t.ID)
+			}
+			r.editSource(s)
+		}
+	})
+	// a kill inside the index write leaves an empty index; the next thing is an index-preferring collection (as
+	// `dawn gc` does), before any full load has rewritten the index
+	engScenarios = append(engScenarios, func(r *engRun) {
+		s := r.mkSource("")
+		a := r.mkTarget("", nil, []int{s}, 1, false, 0)
+		top := r.mkTarget("", []int{a.ID}, nil, 1, false, 0)
+		r.emitProj("scenario: collection through an index a killed load left empty")
+		r.build(top.ID, "build", nil, "", "scenario")
+		r.editSource(s)
+		obs := r.build(top.ID, "build", nil, "index.created|*|1", "killed inside the index write")
+		if obs.Kind == "crash" || obs.Kind == "crash-load" {
+			r.gc(true)
+		}
+		o := r.build(top.ID, "build", nil, "", "after the collection")
+		if o.Kind == "build" && o.OK {
+			r.checkClean(top.ID)
+		}
+		o = r.build(top.ID, "build", nil, "", "again")
+		if o.Kind == "build" && o.OK && len(o.Ran) != 0 {
+			r.oracle("C14 a collection changed what the next build executes: %v ran although nothing changed", o.Ran)
+		}
+	})
+	// labels whose names are prefixes of one another: the shorter ones are removed and collected, the longer ones stay
+	engScenarios = append(engScenarios, func(r *engRun) {
+		s1, s2 := r.mkSource(""), r.mkSource("")
+		docs := r.mkTarget("", nil, []int{s1}, 1, false, 0)
+		docs.Name = "docs"
+		html := r.mkTarget("", nil, []int{s2}, 1, false, 0)
+		html.Name = "docs_html"
+		d2 := r.mkTarget("", nil, []int{s2}, 1, false, 1)
+		d2.Name = "doc"
+		top := r.mkTarget("", []int{docs.ID, html.ID, d2.ID}, nil, 1, false, 0)
+		// sources main.c / main.cc
+		for _, sid := range []int{s1, s2} {
+			_ = sid
+		}
+		r.emitProj("scenario: labels that are prefixes of one another")
+		r.build(top.ID, "build", nil, "", "scenario")
+		delete(r.p.Targets, docs.ID)
+		delete(r.p.Targets, d2.ID)
+		top.Deps = []int{html.ID}
+		r.emitProj("remove the targets with the shorter names")
+		r.gc(false)
+		r.build(top.ID, "build", nil, "", "after the collection")
+		r.gc(true)
+	})
+	// the requested label itself does not exist; and a dry run of a tree one of whose outputs was deleted
+	engScenarios = append(engScenarios, func(r *engRun) {
+		s := r.mkSource("")
+		a := r.mkTarget("", nil, []int{s}, 1, false, 0)
+		top := r.mkTarget("", []int{a.ID}, nil, 1, false, 0)
+		r.p.Unknown = map[int]string{904: "//:no-such-target", 905: "//nopkg:x"}
+		r.emitProj("scenario: unknown requested label; dry run after a deleted output")
+		r.build(top.ID, "build", nil, "", "scenario")
+		r.build(904, "build", nil, "", "the requested label does not exist")
+		r.build(905, "build", nil, "", "the requested package does not exist")
+		r.build(904, "dry", nil, "", "dry run of a label that does not exist")
+		os.Remove(filepath.Join(r.root, r.p.Paths[a.Gens[0]]))
+		r.emitFile(a.Gens[0], 0, "delete output")
+		r.dryThenBuild(top.ID)
+	})
+	// one Project, a preview and then the build with no Reload in between, in a tree where a target is stale only
+	// because its dependency was rebuilt on its own earlier
+	engScenarios = append(engScenarios, func(r *engRun) {
+		s := r.mkSource("")
+		lib := r.mkTarget("", nil, []int{s}, 1, false, 0)
+		app := r.mkTarget("", []int{lib.ID}, nil, 1, false, 1)
+		r.emitProj("scenario: dry run then build in one process without a reload")
+		r.build(app.ID, "build", nil, "", "scenario")
+		r.editSource(s)
+		r.build(lib.ID, "build", nil, "", "the dependency alone")
+		lbl := r.p.label(app.ID)
+		_, r.execPos = readLines(filepath.Join(r.root, ".exec.log"), 0)
+		rep, _, hung := r.child("dry+run", lbl, nil, "")
+		if hung || rep == nil || rep.LoadErr != "" {
+			r.oracle("C13 dry run then build in one process: no report (hung=%v)", hung)
+			return
+		}
+		if strings.Contains(rep.RunErr, "dry run changed the tree") {
+			r.oracle("C13 dry run of %s changed the tree (files or persisted state)", lbl)
+		}
+		ranLines, _ := readLines(filepath.Join(r.root, ".exec.log"), r.execPos)
+		var ran []int
+		for _, l := range ranLines {
+			ran = append(ran, r.labelIDAny(l))
+		}
+		sort.Ints(ran)
+		by, run := r.eventsByLabel(rep) // events of the second run (after the marker)
+		r.checkProtocol(run, ran, "build", rep.RunErr, lbl)
+		recs, _ := r.records()
+		r.h.Ops = append(r.h.Ops, mOp{Op: "build", Label: app.ID, Mode: "build", Note: "in process, after a dry run, no reload",
+			Obs: &mObs{Kind: "build", OK: rep.RunErr == "", Ran: ran, Events: by, Recs: recs}})
+		if len(ran) == 0 {
+			r.oracle("C13 a dry run changed what the next build does: after a preview in the same process the stale target %s was not executed", lbl)
+		}
+		o := r.build(app.ID, "build", nil, "", "fresh process afterwards")
+		if o.Kind == "build" && o.OK {
+			r.checkClean(app.ID)
+		}
+	})
+}
